@@ -64,7 +64,7 @@ var c9Corpus = []c9T{
 	c9tf[C9TStr](), c9tf[C9TInt](), c9tf[C9TPInt](), c9tf[C9MT](), c9tf[C9Z](), c9tf[C9ZP](), c9tf[C9E1](), c9tf[C9E2](),
 	c9tf[C9NamedStr](), c9tf[C9NamedInt](), c9tf[C9NamedBytes](), c9tf[[]C9Byte](), c9tf[[3]byte](), c9tf[C9EmbMV](), c9tf[C9EmbTVPtr](),
 	c9tf[C9EmbPtr](), c9tf[C9EmbHidden](), c9tf[C9EmbHiddenPtr](), c9tf[C9EmbBoth](), c9tf[C9EmbInt](), c9tf[C9Tree](),
-	c9tf[C9Iface](), c9tf[C9MarshalerI](), c9tf[C9TextI](),
+	c9tf[C9Iface](), c9tf[C9MarshalerI](), c9tf[C9TextI](), c9tf[C9Fold](),
 }
 
 var c9Keys = []c9T{
@@ -77,8 +77,8 @@ var c9Keys = []c9T{
 
 var c9Embeds = []c9T{c9tf[C9E1](), c9tf[C9E2](), c9tf[*C9E1](), c9tf[*C9E2](), c9tf[C9NamedInt](), c9tf[C9Tree]()}
 
-var c9GoNames = []string{"A", "B", "C", "Ab", "AB", "Name", "X", "A_b", "E", "V", "Kids"}
-var c9TagNames = []string{"a", "b", "A", "x", "name", "NAME", "a-b", "a.b", "$", "X_y", "Ab", "é", "B", "v", "a2", "0"}
+var c9GoNames = []string{"A", "B", "C", "Ab", "AB", "Name", "X", "A_b", "E", "V", "Kids", "Kind", "Sks", "Σς"}
+var c9TagNames = []string{"a", "b", "A", "x", "name", "NAME", "a-b", "a.b", "$", "X_y", "Ab", "é", "B", "v", "a2", "0", "kind", "sks", "σς", "ǆ", "straße", "k_k"}
 
 type c9Gen struct{ r *rand.Rand }
 
@@ -904,11 +904,16 @@ func c9CheckMarshal(c *Ctx, w *c09Watch, slot int, g c9Gen, t c9T, desc string, 
 func c9FFFD(v1out, classic []byte) string {
 	esc := []byte(c09BU + "fffd")
 	// (under the `string` tag the string is encoded twice and the escape's backslash is itself escaped)
-	re := bytes.ReplaceAll(bytes.ReplaceAll(classic, append([]byte{0x5c}, esc...), []byte("\xef\xbf\xbd")), esc, []byte("\xef\xbf\xbd"))
-	if bytes.Contains(classic, esc) && bytes.Equal(re, v1out) {
+	if bytes.Contains(classic, esc) && bytes.Equal(c9RespellFFFD(classic), v1out) {
 		return "[invalid-utf8-fffd-spelling]"
 	}
 	return ""
+}
+
+// c9RespellFFFD spells every \\ufffd escape of the classic output (also the doubly encoded one) as raw U+FFFD.
+func c9RespellFFFD(classic []byte) []byte {
+	esc := []byte(c09BU + "fffd")
+	return bytes.ReplaceAll(bytes.ReplaceAll(classic, append([]byte{0x5c}, esc...), []byte("\xef\xbf\xbd")), esc, []byte("\xef\xbf\xbd"))
 }
 
 func c9Dbg(kind string, d map[string]any) {
@@ -1045,8 +1050,11 @@ var c9Attributions = []struct {
 			if e >= len(in) || in[e] != ':' {
 				continue
 			}
-			name := string(in[sp[0]+1 : sp[1]-1])
-			if !exact[name] && amb[strings.ToLower(name)] {
+			var name string
+			if stdjson.Unmarshal(in[sp[0]:sp[1]], &name) != nil { // the name as both packages read it (escapes undone)
+				continue
+			}
+			if !exact[name] && amb[c9Fold(name)] {
 				out = append(append(append([]byte(nil), out[:sp[0]]...), `"zz_renamed"`...), out[sp[1]:]...)
 			}
 		}
@@ -1092,7 +1100,7 @@ func c9FoldAmbiguous(t reflect.Type, amb, exact map[string]bool, seen map[reflec
 					name = f.Name
 				}
 				exact[name] = true
-				l := strings.ToLower(name)
+				l := c9Fold(name)
 				if byFold[l] == nil {
 					byFold[l] = map[string]bool{}
 				}
@@ -1111,10 +1119,10 @@ func c9FoldAmbiguous(t reflect.Type, amb, exact map[string]bool, seen map[reflec
 	}
 }
 
-func c9CheckUnmarshal(c *Ctx, w *c09Watch, slot int, t c9T, desc string, in []byte, populated bool, seed uint64) {
+func c9CheckUnmarshal(c *Ctx, w *c09Watch, slot int, t c9T, desc string, in []byte, populated bool, seed uint64) (clean bool) {
 	o := c9RunUnmarshal(c, w, slot, t, in, populated, seed)
 	if o.skipped {
-		return
+		return false
 	}
 	pre := "zero"
 	if populated {
@@ -1131,7 +1139,7 @@ func c9CheckUnmarshal(c *Ctx, w *c09Watch, slot int, t c9T, desc string, in []by
 	}
 	kind := o.verdict()
 	if kind == "" {
-		return
+		return true
 	}
 	for _, at := range c9Attributions {
 		in2 := at.fix(t, desc, in)
@@ -1147,6 +1155,7 @@ func c9CheckUnmarshal(c *Ctx, w *c09Watch, slot int, t c9T, desc string, in []by
 		"v1_err": fmt.Sprint(o.e1), "classic_err": fmt.Sprint(o.e2), "v1_after": c9Short(o.after1), "classic_after": c9Short(o.after2)}
 	c9Dbg(kind, d)
 	c.Violate(kind, "v1.Unmarshal", []byte(desc+"|"+string(in)+"|"+o.before), d)
+	return false
 }
 
 // c09Cycles: cyclic values (DESIGN.md §6 D2) — the classic package reports an error; v1 is run in a child.
@@ -1252,4 +1261,261 @@ func c09Probes(c *Ctx) {
 	marshal("nil-pointer-in-marshaler-interface", "Marshal(struct{M C9MarshalerI}{(*C9MP)(nil)})", struct{ M C9MarshalerI }{(*C9MP)(nil)})
 	marshal("nil-pointer-in-marshaler-interface", "Marshal(struct{T C9TextI}{(*C9TP)(nil)})", struct{ T C9TextI }{(*C9TP)(nil)})
 	marshal("nil-pointer-in-marshaler-interface", "Marshal([]C9MarshalerI{(*C9MP)(nil)})", []C9MarshalerI{(*C9MP)(nil)})
+}
+
+// ---------------------------------------------------------------------------------------------
+// Member-name respelling family (Unmarshal / Decoder.Decode inputs).
+//
+// encoding/json matches a member name to a field exactly or, failing that, by Unicode SIMPLE case folding rune by
+// rune (fold.go foldName: every rune replaced by the smallest member of its unicode.SimpleFold orbit); '_' and '-'
+// are significant.  v1 must match exactly the same spellings (MatchCaseInsensitiveNames + MatchCaseSensitiveDelimiter
+// = strings.EqualFold).  For every member name of a valid input the family produces: a random member of each rune's
+// fold orbit (k/K/U+212A KELVIN SIGN, s/S/U+017F LONG S, σ/Σ/ς, ǆ/ǅ/Ǆ … — spellings whose UTF-8 LENGTH differs from
+// the field name's), ASCII case flips, '_'/'-' insertion, near-misses (combining mark, full-fold-only pairs such as
+// ß/ss, dotted/dotless i, fullwidth letters, a doubled or dropped letter) and the \uXXXX-escaped spelling of any of those.
+
+// c9Fold is the classic folding: each rune replaced by the smallest rune of its simple-fold orbit.
+func c9Fold(s string) string {
+	var sb strings.Builder
+	for _, r := range s {
+		m := r
+		for x := unicode.SimpleFold(r); x != r; x = unicode.SimpleFold(x) {
+			if x < m {
+				m = x
+			}
+		}
+		sb.WriteRune(m)
+	}
+	return sb.String()
+}
+
+func c9Orbit(r rune) []rune {
+	o := []rune{r}
+	for x := unicode.SimpleFold(r); x != r; x = unicode.SimpleFold(x) {
+		o = append(o, x)
+	}
+	return o
+}
+
+var c9NearMiss = map[rune][]string{'s': {"ß", "ss", "ｓ"}, 'S': {"ẞ", "SS"}, 'k': {"ｋ", "κ"}, 'K': {"Κ"}, 'i': {"ı", "İ", "í"}, 'I': {"İ", "ı"}, 'ß': {"ss", "ẞ"}, 'a': {"а", "ａ"}, 'ı': {"i", "I"}, 'İ': {"i", "I"}}
+
+// respellName returns a respelling of a member name and the class of the change.
+func (g c9Gen) respellName(name string) (string, string) {
+	rs := []rune(name)
+	switch k := g.r.IntN(10); {
+	case k < 4: // a random member of every rune's simple-fold orbit (still a match)
+		for i, r := range rs {
+			o := c9Orbit(r)
+			rs[i] = o[g.r.IntN(len(o))]
+		}
+		return string(rs), "fold-orbit"
+	case k < 5: // exactly one rune moved to the LAST member of its orbit (the non-ASCII one for k and s)
+		var idx []int
+		for i, r := range rs {
+			if len(c9Orbit(r)) > 2 {
+				idx = append(idx, i)
+			}
+		}
+		if len(idx) == 0 {
+			for i := range rs {
+				idx = append(idx, i)
+			}
+		}
+		if len(idx) > 0 {
+			i := idx[g.r.IntN(len(idx))]
+			o := c9Orbit(rs[i])
+			rs[i] = o[len(o)-1]
+		}
+		return string(rs), "fold-orbit-one"
+	case k < 6: // ASCII flips
+		for i, r := range rs {
+			if r < 0x80 && unicode.IsLetter(r) && g.r.IntN(2) == 0 {
+				if unicode.IsUpper(r) {
+					rs[i] = unicode.ToLower(r)
+				} else {
+					rs[i] = unicode.ToUpper(r)
+				}
+			}
+		}
+		return string(rs), "ascii-flip"
+	case k < 7: // delimiter inserted or removed (never a match in either package)
+		if i := strings.IndexAny(name, "_-"); i >= 0 && g.r.IntN(2) == 0 {
+			return name[:i] + name[i+1:], "delimiter-removed"
+		}
+		i := g.r.IntN(len(rs) + 1)
+		d := []rune{'_', '-'}[g.r.IntN(2)]
+		return string(rs[:i]) + string(d) + string(rs[i:]), "delimiter-inserted"
+	case k < 9: // near-miss
+		if len(rs) == 0 {
+			return "\u0301", "near-miss"
+		}
+		i := g.r.IntN(len(rs))
+		switch g.r.IntN(4) {
+		case 0:
+			return string(rs[:i+1]) + "\u0301" + string(rs[i+1:]), "near-miss" // combining acute
+		case 1:
+			if alts := c9NearMiss[rs[i]]; len(alts) > 0 {
+				return string(rs[:i]) + alts[g.r.IntN(len(alts))] + string(rs[i+1:]), "near-miss"
+			}
+			return string(rs[:i+1]) + string(rs[i:]), "near-miss" // doubled
+		case 2:
+			return string(rs[:i]) + string(rs[i+1:]), "near-miss" // dropped
+		default:
+			return string(rs[:i+1]) + string(rs[i:]), "near-miss" // doubled
+		}
+	}
+	return name, "unchanged"
+}
+
+// c9QuoteName spells a member name as a JSON string, escaping a random subset of the runes as \uXXXX.
+func (g c9Gen) quoteName(name string, escapeP int) string {
+	var sb strings.Builder
+	sb.WriteByte('"')
+	for _, r := range name {
+		esc := g.r.IntN(100) < escapeP || r < 0x20 || r == '"' || r == 0x5c
+		if !esc {
+			sb.WriteRune(r)
+			continue
+		}
+		f := "%04x"
+		if g.r.IntN(2) == 0 {
+			f = "%04X"
+		}
+		if r >= 0x10000 {
+			r -= 0x10000
+			sb.WriteString(c09BU + fmt.Sprintf(f, 0xd800+(r>>10)) + c09BU + fmt.Sprintf(f, 0xdc00+(r&0x3ff)))
+		} else {
+			sb.WriteString(c09BU + fmt.Sprintf(f, r))
+		}
+	}
+	sb.WriteByte('"')
+	return sb.String()
+}
+
+// respell rewrites member names of a JSON text (each with probability 1/2).
+func (g c9Gen) respell(c *Ctx, in []byte) []byte {
+	out := append([]byte(nil), in...)
+	spans := c9Spans(in)
+	for k := len(spans) - 1; k >= 0; k-- {
+		sp := spans[k]
+		if in[sp[0]] != '"' {
+			continue
+		}
+		e := sp[1]
+		for e < len(in) && (in[e] == ' ' || in[e] == '\n' || in[e] == '\t' || in[e] == '\r') {
+			e++
+		}
+		if e >= len(in) || in[e] != ':' || g.r.IntN(2) == 0 {
+			continue
+		}
+		var name string
+		if stdjson.Unmarshal(in[sp[0]:sp[1]], &name) != nil {
+			continue
+		}
+		nn, class := g.respellName(name)
+		escP := []int{0, 0, 30, 100}[g.r.IntN(4)]
+		if escP > 0 {
+			class += "+escaped"
+		}
+		if len(nn) != len(name) && c9Fold(nn) == c9Fold(name) {
+			class += "+utf8-length-differs"
+		}
+		c.Hit("respell/" + class)
+		out = append(append(append([]byte(nil), out[:sp[0]]...), g.quoteName(nn, escP)...), out[sp[1]:]...)
+	}
+	return out
+}
+
+func init() { c09Parts = append(c09Parts, c09Part{"R (member-name respelling)", c09Respell}) }
+
+func c09Respell(c *Ctx) {
+	nw := c09NW(c)
+	w := newC09Watch(c, nw)
+	defer w.stop.Store(true)
+	n := c.N(12000, 600000)
+	var wg sync.WaitGroup
+	for wk := 0; wk < nw; wk++ {
+		wg.Add(1)
+		go func(wk int) {
+			defer wg.Done()
+			r := c.SubRng(uint64(500 + wk))
+			g := c9Gen{r}
+			for i := wk; i < n; i += nw {
+				var t c9T
+				switch i % 3 {
+				case 0:
+					t = c9tf[C9Fold]()
+				case 1:
+					t = c9tf[map[string]C9Fold]()
+					if r.IntN(2) == 0 {
+						t = c9tf[[]*C9Fold]()
+					}
+				default:
+					t = g.structType(2)
+				}
+				desc := c9TypeName(t.a)
+				va, vb := g.val(t, 3)
+				var good []byte
+				var err error
+				if p := guard(func() { good, err = stdjson.Marshal(vb.Interface()) }); p != nil || err != nil {
+					continue
+				}
+				_ = va
+				in := g.respell(c, good)
+				seed := r.Uint64()
+				for _, populated := range []bool{false, true} {
+					clean := c9CheckUnmarshal(c, w, wk, t, desc, in, populated, seed)
+					if !clean {
+						continue
+					}
+					// the same input through Decoder.Decode, without and with DisallowUnknownFields
+					for _, strict := range []bool{false, true} {
+						c9CheckDecode(c, w, wk, t, desc, in, populated, seed, strict)
+					}
+				}
+			}
+		}(wk)
+	}
+	wg.Wait()
+}
+
+// c9CheckDecode: NewDecoder(in).Decode(&target), optionally after DisallowUnknownFields, v1 vs classic.
+func c9CheckDecode(c *Ctx, w *c09Watch, slot int, t c9T, desc string, in []byte, populated bool, seed uint64, strict bool) {
+	ta, tb := reflect.New(t.a), reflect.New(t.b)
+	if populated {
+		va, vb := c9Gen{rand.New(rand.NewPCG(seed, 9))}.val(t, 3)
+		ta.Elem().Set(va)
+		tb.Elem().Set(vb)
+	}
+	before := c9D(ta.Elem())
+	d1, d2 := jsonv1.NewDecoder(bytes.NewReader(in)), stdjson.NewDecoder(bytes.NewReader(in))
+	if strict {
+		d1.DisallowUnknownFields()
+		d2.DisallowUnknownFields()
+	}
+	var e1, e2 error
+	if p := guard(func() { e2 = d2.Decode(tb.Interface()) }); p != nil {
+		c.Hit("typed/classic-panic")
+		return
+	}
+	if w.call(slot, "v1.Decoder.Decode", in, func() { e1 = d1.Decode(ta.Interface()) }) {
+		return
+	}
+	mode := "Decode"
+	if strict {
+		mode = "DisallowUnknownFields+Decode"
+	}
+	c.Case("respell-decode:"+mode+"|"+desc+"|"+string(in)+"|"+before, true)
+	c.Hit("respell/" + mode + "/" + c9ErrClass(e2))
+	a, b := c9D(ta.Elem()), c9D(tb.Elem())
+	d := map[string]any{"type": c9Short(desc), "input": c9Short(string(in)), "mode": mode, "before": c9Short(before),
+		"v1_err": fmt.Sprint(e1), "classic_err": fmt.Sprint(e2), "v1_after": c9Short(a), "classic_after": c9Short(b)}
+	switch {
+	case (e1 == nil) != (e2 == nil):
+		c9Dbg("decoder-decode-result-mismatch", d)
+		c.Violate("decoder-decode-result-mismatch", "v1.Decoder", []byte(mode+"|"+desc+"|"+string(in)+"|"+before), d)
+	case e2 == nil && a != b:
+		c9Dbg("decoder-decode-value-mismatch", d)
+		c.Violate("decoder-decode-value-mismatch", "v1.Decoder", []byte(mode+"|"+desc+"|"+string(in)+"|"+before), d)
+	}
 }
